@@ -145,7 +145,7 @@ func TestSnapshots(t *testing.T) {
 		e := newEnv(&f)
 		defer e.w.Teardown()
 		shapes := listgen.ShapesFor(&f)
-		o := gen.Opt{Dense: true, NestedElements: true}
+		o := gen.Opt{Dense: true, NestedElements: true, UnsortedFull: true}
 		// populate both stores
 		initL := refmodel.Update{Items: listgen.Items(t, &f, 4, o, "initL")}
 		e.srv.SetData(f.Fn, refmodel.Payload(&f, initL.Items))
